@@ -140,11 +140,14 @@ def run_case(rs, ctx):
     else:
         lk = ["eg", "ucb", "linucb", "lingreedy"][(ctx.index // 2) % 4]
         npd = {"kind": "clusters", "n_clusters": int(rs.integers(2, 5)), "minibatch": bool(rs.integers(3) == 0)}
+        if rs.integers(4) == 0:
+            # many clusters for few rows: some cluster ids receive no stored row at all
+            npd = {"kind": "clusters", "n_clusters": int(rs.integers(5, 9)), "minibatch": bool(rs.integers(4) > 0)}
     cfg = {"arms": list(gen.LABELS[labels][:n_arms]), "labels": labels, "lp": gen.gen_lp(rs, lk, deterministic=True), "np": npd,
            "seed": int(rs.integers(10 ** 6)), "n_jobs": 1, "backend": None}
     nf = int(rs.integers(1, 4))
     sh = gen.Shadow(cfg, nf)
-    ops = gen.gen_ops(rs, cfg, sh, 1, ["fit"], train_rows=(10, 30)) + gen.gen_ops(rs, cfg, sh, int(rs.integers(0, 7)), KINDS, train_rows=(1, 10))
+    ops = gen.gen_ops(rs, cfg, sh, 1, ["fit"], train_rows=(10, 14) if npd.get("n_clusters", 0) >= 5 else (10, 30)) + gen.gen_ops(rs, cfg, sh, int(rs.integers(0, 7)), KINDS, train_rows=(1, 10))
     m = gen.build(cfg)
     rows = {"d": [], "r": [], "X": []}
     per_arm = {}
